@@ -1096,6 +1096,10 @@ pub fn gen_repr(rg: &mut Rg, repr: Option<&str>, derives: &[String]) -> EnumSpec
         let mut idents: Vec<&str> = IDENTS.to_vec();
         rg.shuffle(&mut idents);
         with_ident_pair(rg, &mut idents);
+        // the user's constant may carry a name the derive would pick for one of its own helper items
+        if use_base && rg.chance(1, 3) && idents[0].is_ascii() {
+            e.base_const_name = Some(format!("{}_DISCRIMINANT", idents[0]));
+        }
         let mut prev: Option<i128> = None;
         for vi in 0..n {
             let mut v = VariantSpec::unit(idents[vi]);
@@ -1126,7 +1130,7 @@ pub fn gen_repr(rg: &mut Rg, repr: Option<&str>, derives: &[String]) -> EnumSpec
                     // an expression that STARTS with a parenthesised part and goes on after it
                     5 if val & 16 != 0 && val >= 16 && val < 4096 => format!("(1 << 4) | {}", val & !16),
                     5 if val >= 2 && val % 2 == 0 && val <= 2000 => format!("({} + 1) * 2", val / 2 - 1),
-                    3 if use_base && val - e.base_const.unwrap() >= 0 && val - e.base_const.unwrap() <= hi.min(1000) => format!("BASE + {}", val - e.base_const.unwrap()),
+                    3 if use_base && val - e.base_const.unwrap() >= 0 && val - e.base_const.unwrap() <= hi.min(1000) => format!("{} + {}", e.base_const_name.as_deref().unwrap_or("BASE"), val - e.base_const.unwrap()),
                     _ => format!("{}", val),
                 };
                 v.disc = Some(Disc { text, value: val });
